@@ -182,8 +182,62 @@ def rules(ctx, db):
         ctx.ob("R4", "Slice::new-caller:" + f.name, f.id.startswith("compio_buf::"), "views are only created inside compio-buf", f)
 
 
+# sites whose bound is a struct invariant or a contract of *another* object: one named function + one line of reason
+R5_EXCEPTIONS = {
+    ("<compio_buf::io_vec_buf::VectoredBufIter<T> as compio_buf::io_buf::IoBuf>::as_init", "index-RangeFrom"):
+        "`filled` is the length last recorded through SetLen for the current member; the SetLen contract bounds it by that member's length",
+    ("<compio_buf::slice::VectoredSlice<T> as compio_buf::io_vec_buf::IoVectoredBuf>::iter_slice", "index-RangeFrom"):
+        "`offset` was computed by IoVectoredBuf::slice against this very member (R2 checks that loop); the view is immutable afterwards",
+    ("<compio_buf::slice::VectoredSlice<T> as compio_buf::io_vec_buf::IoVectoredBufMut>::iter_uninit_slice", "index-RangeFrom"):
+        "`offset` was computed by IoVectoredBufMut::slice_mut against this very member's length, which its capacity bounds",
+    ("<compio_buf::uninit::Uninit<T> as compio_buf::io_buf::IoBufMut>::as_uninit", "index-RangeFrom"):
+        "Uninit::buf_len is the wrapped slice's begin-relative length, bounded by the wrapped buffer's capacity (IoBuf contract of the inner view)",
+}
+
+
+def rule_arith(ctx, db):
+    from .. import arith
+    R = ctx.rule
+    R("R5", "GUARD/arith", "in compio-buf and the pool buffer every checked subtraction and open-ended slice index is justified: a "
+      "dominating comparison, a min() clamp, len <= capacity of the same buffer (the contract), or a named struct invariant")
+    if not any(n.startswith(BUF) for n in db.adts):
+        return
+    n = 0
+    per = {}
+    seen_exc = set()
+    for f in db.fns.values():
+        if not (f.id.startswith("compio_buf::") or f.id.startswith("compio_driver::buffer_pool::")):
+            continue
+        if "::test::" in f.id or "::tests::" in f.id:
+            continue
+        sg = None
+        for st in arith.sites(f):
+            if sg is None:
+                sg = arith.Sigs(f)
+            if st[0] == "sub":
+                _, bb, a, b, ln = st
+                j = arith.justify(db, f, sg, a, b, bb, contract=True)
+                what = "subtraction"
+            else:
+                _, bb, tgt, bound, kind, ln = st
+                j = arith.justify(db, f, sg, None, bound, bb, a_is_len_of=sg.operand(tgt), contract=True)
+                what = "index-" + kind
+            root = db.root_fn(f).name
+            if j is None and (root, what) in R5_EXCEPTIONS:
+                j = "named invariant: " + R5_EXCEPTIONS[(root, what)]
+                seen_exc.add((root, what))
+            k = (root, what)
+            per[k] = per.get(k, 0) + 1
+            n += 1
+            ctx.ob("R5", "justified:%s:%s#%d" % (root, what, per[k]), j is not None,
+                   "%s at line %s: %s" % (what, ln, j or "nothing establishes that the subtrahend / index bound cannot exceed the "
+                                          "minuend / slice length"), f)
+    ctx.floor("R5", "checked subtractions / open-ended indexes in compio-buf and the pool buffer", n, 15)
+
+
 def rules_all(ctx, db):
     rules(ctx, db)
+    rule_arith(ctx, db)
     if ctx.tier == "thorough" and ctx.cfg == "A":
         from .. import witness
         witness.obligations(ctx, "C10")
